@@ -36,7 +36,7 @@ def newFromImage (w h : Int) : Res WR := new w h 10 (Int.tdiv w 2) (Int.tdiv h 2
 def scanLine (rd : Reader) (horizontal : Bool) (fixed : Int) : Nat → Int → Res Bool
   | 0, _ => .ok false
   | n + 1, c => do
-    let b ← if horizontal then rd c fixed else rd fixed c
+    let b ← rd (if horizontal then c else fixed) (if horizontal then fixed else c)
     if b then .ok true else scanLine rd horizontal fixed n (c + 1)
 
 /-- `containsBlackPoint(a, b, fixed, horizontal)`: `for x := a; x <= b; x++` -/
@@ -75,20 +75,27 @@ structure St where
 def fuelUp (lim c : Int) : Nat := (lim - c).toNat + 1
 def fuelDown (c : Int) : Nat := (c + 1).toNat + 1
 
+/-- one round of the `for aBlackPointFoundOnBorder { … }` loop: the four expansion loops and their
+    `sizeExceeded` tests.  `none` = `sizeExceeded`; otherwise the new state and `aBlackPointFoundOnBorder` -/
+def round (rd : Reader) (w h : Int) (s : St) : Res (Option (St × Bool)) := do
+  let r1 ← expandLoop rd false s.up s.down 1 (fun c => decide (c < w)) (fuelUp w s.right) s.right true s.oneR false
+  if r1.1 ≥ w then return none
+  let r2 ← expandLoop rd true s.left r1.1 1 (fun c => decide (c < h)) (fuelUp h s.down) s.down true s.oneB r1.2.2
+  if r2.1 ≥ h then return none
+  let r3 ← expandLoop rd false s.up r2.1 (-1) (fun c => decide (c ≥ 0)) (fuelDown s.left) s.left true s.oneL r2.2.2
+  if r3.1 < 0 then return none
+  let r4 ← expandLoop rd true r3.1 r1.1 (-1) (fun c => decide (c ≥ 0)) (fuelDown s.up) s.up true s.oneT r3.2.2
+  if r4.1 < 0 then return none
+  return some ({ left := r3.1, right := r1.1, up := r4.1, down := r2.1,
+                 oneR := r1.2.1, oneB := r2.2.1, oneL := r3.2.1, oneT := r4.2.1 }, r4.2.2)
+
 /-- the `for aBlackPointFoundOnBorder { … }` loop; `none` = `sizeExceeded` -/
 def detectLoop (rd : Reader) (w h : Int) : Nat → St → Res (Option St)
   | 0, _ => .error .fuel
   | n + 1, s => do
-    let (right, oneR, f1) ← expandLoop rd false s.up s.down 1 (fun c => decide (c < w)) (fuelUp w s.right) s.right true s.oneR false
-    if right ≥ w then return none
-    let (down, oneB, f2) ← expandLoop rd true s.left right 1 (fun c => decide (c < h)) (fuelUp h s.down) s.down true s.oneB f1
-    if down ≥ h then return none
-    let (left, oneL, f3) ← expandLoop rd false s.up down (-1) (fun c => decide (c ≥ 0)) (fuelDown s.left) s.left true s.oneL f2
-    if left < 0 then return none
-    let (up, oneT, f4) ← expandLoop rd true left right (-1) (fun c => decide (c ≥ 0)) (fuelDown s.up) s.up true s.oneT f3
-    if up < 0 then return none
-    let s' : St := { left := left, right := right, up := up, down := down, oneR := oneR, oneB := oneB, oneL := oneL, oneT := oneT }
-    if f4 then detectLoop rd w h n s' else return some s'
+    match ← round rd w h s with
+    | none => return none
+    | some (s', found) => if found then detectLoop rd w h n s' else return some s'
 
 /-- the sampling loop of `getBlackPointOnSegment`: `for i := 0; i < dist; i++` -/
 def segLoop {F : Type} (o : FOps F) (rd : Reader) (aX aY : Int) (xStep yStep : F) : Nat → Int → Res (Option (Int × Int))
